@@ -236,7 +236,8 @@ def run(ctx):
                 # the discriminant of the reply itself: `(next() as Some).0.1` (the Result half of the
                 # (peer_id, result) tuple) or a local named `result`
                 is_result = (st.k == 'field' and st.b.endswith('::1') and 'join_all' in st.show() and L.mentions_next(st) is not None) or \
-                            (st.k in ('let', 'local') and st.b == 'result')
+                            (st.k in ('let', 'local') and isinstance(st.a, int) and b.local_ty(st.a).startswith('std::result::Result') and
+                             any(cj.dest and cj.dest[0] in b.backward_locals([st.a], limit=1500) for cj in b.calls(r'::join_all$')))
                 if is_result:
                     ok_arm = cd.variant_is(0)
                     break
